@@ -31,7 +31,7 @@ def dec_config():
 
 FAULTS = ('truncated-record', 'oversized-length', 'undecodable-mti', 'unknown-bit', 'bad-field-length', 'bad-typed-value',
           'bad-pds', 'bad-icc', 'short-message', 'short-message-empty-bitmap', 'bare-mti', 'bad-decimal', 'last-element-cut-short',
-          'last-length-overstated')
+          'last-length-overstated', 'length-with-odd-numeral', 'length-negative', 'pds-length-with-odd-numeral')
 
 
 def owner(clause):
@@ -55,6 +55,17 @@ def inject(rec, kind, enc, r):
         x[4] |= 0x02           # bit 7 has no configuration
     elif kind == 'bad-field-length':
         x[20:22] = 'zz'.encode(enc)       # DE2 prefix
+    elif kind == 'length-with-odd-numeral':
+        from .c07 import odd_numerals         # a superscript / fraction of the code page inside the DE2 length prefix
+        odd = odd_numerals(enc)
+        x[20:22] = bytes([x[20], odd[r.randrange(len(odd))]]) if r.random() < 0.5 else bytes([odd[r.randrange(len(odd))], x[21]])
+    elif kind == 'length-negative':
+        x[20:22] = '-1'.encode(enc)
+    elif kind == 'pds-length-with-odd-numeral':
+        from .c07 import odd_numerals
+        odd = odd_numerals(enc)
+        q = bytes(x).find('0023003'.encode(enc))
+        x[q + 4 + r.randrange(3)] = odd[r.randrange(len(odd))]
     elif kind == 'bad-typed-value':
         # DE4 follows DE2 (2 + 16) and DE3 (6)
         q = 20 + 18 + 6
